@@ -656,7 +656,7 @@ def fidelity(rho, sigma):
 
         rho_final = sqrtm_psd(rho_sigma)
         f = np.real(np.trace(rho_final)) ** 2
-        if not np.isclose(f, 1.0):
+        if f > 1.0 and not np.isclose(f, 1.0):
             raise Warning(f"Fidelity should be between 0 and 1. Value if {f}.")
         f = np.maximum(np.minimum(f, 1.0), 0.0)
         return f
